@@ -238,7 +238,7 @@ def check_created(c, files, profile, overrides):
 def c19(ctx):
     quick = ctx.tier == 'quick'
     r = ctx.rng('c19')
-    n = 260 if quick else 4000
+    n = 500 if quick else 4000
     cases = []
     for _ in range(n):
         c = gen_repo(r)
@@ -395,7 +395,7 @@ def c20(ctx):
     import p_c11
     quick = ctx.tier == 'quick'
     r = ctx.rng('c20')
-    n = 60 if quick else 700
+    n = 120 if quick else 700
     st = {'repositories': 0, 'single_directories': 0, 'verify_ok': 0, 'exact': 0, 'update_finds_nothing': 0, 'update_byte_identical': 0,
           'edited_then_verifies': 0, 'model_rounds': 0, 'edits': 0}
     reqs = []
